@@ -59,6 +59,18 @@ Theorem C07_unproven_refused : forall (H : string -> string) (cf : cfg) ops h s,
 Proof. exact unproven_refused. Qed.
 Print Assumptions C07_unproven_refused.
 
+(* a client registered with an auth method the library does not name ("" = unset,
+   client_secret_jwt, a case variant of a named value ...: AM_Other) refreshes only with its id
+   and its secret *)
+Theorem C07_other_method_needs_secret : forall (H : string -> string) (cf : cfg) ops h s,
+  exec H cf ops = (h, s) ->
+  forall h1 e h2 pl cr n scopes t r cl,
+    h = h1 ++ e :: h2 -> e_op e = TokenRefresh pl cr (Some n) scopes -> e_out e = OTokens t ->
+    find_rt (e_pre e) n = Some r -> find_client cf (r_client r) = Some cl -> c_auth cl = AM_Other ->
+    cr_assert cr = None /\ cred_id_sec cr = (r_client r, c_secret cl).
+Proof. exact other_method_needs_secret. Qed.
+Print Assumptions C07_other_method_needs_secret.
+
 (* The storage decides what happens to the presented token (f_keep cf, the policy of
    Storage.CreateAccessAndRefreshTokens): a ROTATING storage (f_keep = false) drops exactly the
    presented token and creates one fresh token (id above every stored one), and the response
@@ -129,6 +141,21 @@ Theorem C07_replay : forall (H : string -> string) (cf : cfg) ops h s,
     is_tokens (e_out e2) = false /\ e_post e2 = e_pre e2.
 Proof. exact replay. Qed.
 Print Assumptions C07_replay.
+
+(* a refresh token that the storage revoked or let expire (RevokeRT n, for an id that could
+   exist at that time) is refused ever after and the attempt changes nothing - under both
+   storage policies.  In the machine "the storage refuses the token" is all there is: whether
+   the storage's lookup returns nil or its last known grant NEXT TO the error is not a
+   distinction the provider may make. *)
+Theorem C07_revoked_refused : forall (H : string -> string) (cf : cfg) ops h s,
+  exec H cf ops = (h, s) ->
+  forall h1 e1 h2 e2 h3 n pl cr sc,
+    h = h1 ++ e1 :: h2 ++ e2 :: h3 ->
+    e_op e1 = RevokeRT n -> n <= next (e_pre e1) ->
+    e_op e2 = TokenRefresh pl cr (Some n) sc ->
+    is_tokens (e_out e2) = false /\ e_post e2 = e_pre e2.
+Proof. exact revoked_refused. Qed.
+Print Assumptions C07_revoked_refused.
 
 (* The property predicate of the check (C04_Ledger.c07_ok folded over the history)
    accepts every history of the model: all inputs, no side condition. *)
